@@ -23,7 +23,7 @@ INFO = {
  'C13': ('Theorems for all schedules and any number of threads: mutual exclusion, single-flight, same object, failure not cached, clear refreshes, no_cache transparent, pipeline key injective (+ pre-fix collision witness), sys.path once. Tie: real cache classes driven by real threads under a deterministic scheduler following model schedules.', '4 C13'),
  'C14': ('Theorems by induction on a binding-only mini-language: context read everywhere, eval frame (+ pre-fix walrus leak witness), exec frame = old + saved, imports beside context, in-place mutation visible. Tie: rendered programs through the real PyString/py/pyimport with provenance markers.', '4 C14'),
  'C15': ('Theorems for every chunk count and fault point/kind: source always whole, raise leaves no temp (+ pre-fix leak witness), success keeps entries, kill leaves source whole, unmatched untouched. Tie: real rewriters with faults injected at every modelled point incl. process kill.', '4 C15'),
- 'C16': ('Theorems: fmtDoc maps every string node (keys too) and nothing else; write/fetch round-trip under an explicit codec hypothesis, discharged for the JSON printer/parser pair. Tie: generated payloads through the real filewrite/fetch/fileformat steps; YAML/TOML codecs validated by generation only.', '4 C16'),
+ 'C16': ('Theorems: fmtDoc maps every string node (keys too) and nothing else; write/fetch round-trip and fileformat document spec under an explicit codec hypothesis (RoundTrips d); JSON printer/parser pair modelled and exercised, its general round-trip theorem pending. Tie: generated payloads through the real filewrite/fetch/fileformat steps; YAML/TOML codecs validated by generation only.', '4 C16'),
  'C17': ('Theorems for all command lists, exit codes and completion permutations: serial ok iff all zero, started = prefix to first non-zero, cmdOut per started command in order, async all started, sub-list prefix, results order-independent, aggregate error lists all failures. Tie: real subprocesses released in chosen completion orders.', '4 C17'),
  'C18': ('Theorems: exit-code spec, argv pass-through, parser algebra for all argument lists (kvpairs first-= split and last duplicate wins, list order, string join, keys true, json as is), parse-input table. Tie: real parsers/get_args in-process + python -m pypyr subprocesses by way of termination.', '4 C18'),
  'C19': ('Theorems: first existing candidate in the documented order for every existence predicate, absolute only, not-found lists searched, child-parent default table, sys.path has the pipeline dir. Tie: real directory layouts over all subsets x name forms x pype depth.', '4 C19'),
@@ -56,7 +56,7 @@ na = [{'property_id': p['id'],
       for p in props if p['id'] not in claimed]
 m = {
  'version': 1,
- 'setup_cmd': 'cd lean && lake build',
+ 'setup_cmd': 'cd lean && (lake build || lake build pmdriver)',
  'hooks': {'guard': 'PYPYR_VERIF',
            'enable': 'no source hooks: the harness instruments the implementation from outside (monkeypatching in the harness process); PYPYR_VERIF is reserved and unused',
            'baseline_off_cmd': 'cd /repo && /venv/bin/python -m pytest -ra -q -p no:cacheprovider --timeout=900 --continue-on-collection-errors',
